@@ -34,6 +34,35 @@ fn main() {
         }
         return;
     }
+    if args.len() == 3 && (args[1] == "--scss" || args[1] == "--scss-compressed") {
+        // compile a stylesheet through the public API; report output, error or panic
+        let style = if args[1] == "--scss" {
+            rsass::output::Style::Expanded
+        } else {
+            rsass::output::Style::Compressed
+        };
+        let format = rsass::output::Format { style, precision: 10 };
+        let src = args[2].clone();
+        panic::set_hook(Box::new(|_| {}));
+        let res = panic::catch_unwind(move || {
+            rsass::compile_scss(src.as_bytes(), format)
+                .map(|v| String::from_utf8_lossy(&v).into_owned())
+                .map_err(|e| format!("{e:?}"))
+        });
+        let (outcome, msg) = match res {
+            Ok(Ok(css)) => ("ok", css),
+            Ok(Err(e)) => ("error", e),
+            Err(e) => (
+                "panic",
+                e.downcast_ref::<String>()
+                    .cloned()
+                    .or_else(|| e.downcast_ref::<&str>().map(|s| (*s).to_string()))
+                    .unwrap_or_default(),
+            ),
+        };
+        println!("{{\"outcome\":\"{}\",\"message\":\"{}\"}}", outcome, esc(&msg));
+        return;
+    }
     if args.len() < 2 {
         eprintln!("usage: replay <harness> [hex,hex,...]");
         std::process::exit(3);
